@@ -7,6 +7,8 @@ use vkit::refmath as rf;
 use vkit::vk::{self, MatN};
 use vkit::*;
 
+pub mod wide;
+
 fn no_zero_and_asym<S: Dom, const N: usize>(a: &[[S; N]; N], upto: usize) -> bool {
     let mut ok = true;
     for i in 0..upto {
@@ -172,28 +174,53 @@ pub fn property() -> Property {
     let d = "determinant (both layouts) vs Leibniz permutation expansion; det(A^T) = det A; det unchanged by layout conversion; det(AB) = det A det B";
     tape!("det2-rat", d, 32, 40_000, 800_000, det2::<Rat>);
     tape!("det3-rat", d, 64, 40_000, 800_000, det3::<Rat>);
-    tape!("det4-rat", d, 96, 40_000, 800_000, det4::<Rat>);
+    tape!("det4-rat", d, 96, 24_000, 800_000, det4::<Rat>);
     tape!("det2-f64", d, 64, 20_000, 400_000, det2::<f64>);
     tape!("det3-f64", d, 128, 20_000, 400_000, det3::<f64>);
     tape!("det4-f64", d, 224, 20_000, 400_000, det4::<f64>);
     tape!("det4-f32", d, 224, 20_000, 400_000, det4::<f32>);
     let g = "Mat4::inverted/invert on matrices with det != 0: equals adjugate/det, M*inv = inv*M = I (reference product and vek's own product), both layouts";
-    tape!("inverse-general-rat", g, 64, 60_000, 1_500_000, inverse_general::<Rat>);
+    tape!("inverse-general-rat", g, 64, 40_000, 1_500_000, inverse_general::<Rat>);
     tape!("inverse-general-f64", g, 160, 30_000, 600_000, inverse_general::<f64>);
     let r = "inverted_affine_transform_no_scale (+ in-place) on rotation+translation matrices: two-sided inverse, equal to inverted() and to the scale-aware affine inverse";
-    tape!("inverse-rigid-rat", r, 32, 60_000, 1_500_000, inverse_rigid::<Rat>);
+    tape!("inverse-rigid-rat", r, 32, 36_000, 1_500_000, inverse_rigid::<Rat>);
     tape!("inverse-rigid-f64", r, 48, 30_000, 600_000, inverse_rigid::<f64>);
     let s = "inverted_affine_transform (+ in-place) on T*R*S matrices with scales of either sign in [2^-10, 2^10]: two-sided inverse, equal to inverted()";
-    tape!("inverse-trs-rat", s, 48, 60_000, 1_500_000, inverse_trs::<Rat>);
+    tape!("inverse-trs-rat", s, 48, 36_000, 1_500_000, inverse_trs::<Rat>);
     tape!("inverse-trs-f64", s, 64, 30_000, 600_000, inverse_trs::<f64>);
+    // regime checks (src/wide.rs): exact base matrix, exact power-of-two scaling, exact rational oracle
+    let ws = "Mat4::inverted/invert on structured families (affine non-TRS: shear, S*R, S*R*S, triangular, perturbed TRS; affine TRS; transposed affine; triangular, block, sparse, permutation, scaled-orthogonal, perspective-like, rank-one update, dense), all entries / the affine blocks / (Rat) rows and columns scaled by exact powers of two: equals the exact inverse, two-sided, both layouts, in-place form";
+    tape!("inverse-structured-rat", ws, 96, 10_000, 400_000, wide::inverse_structured::<Rat>);
+    tape!("inverse-structured-f64", ws, 96, 10_000, 400_000, wide::inverse_structured::<f64>);
+    tape!("inverse-structured-f32", ws, 96, 10_000, 400_000, wide::inverse_structured::<f32>);
+    let wr = "rigid fast inverse (+ in-place), affine fast inverse and general inverse on T*R over rotation regimes (generic, axis turns, identity, small angle, near half-turn) and translation regimes (zero, moderate, 2^-k, 2^k): exact inverse R^T [I | -t], two-sided";
+    tape!("inverse-rigid-wide-rat", wr, 48, 6_000, 250_000, wide::inverse_rigid_wide::<Rat>);
+    tape!("inverse-rigid-wide-f64", wr, 48, 6_000, 250_000, wide::inverse_rigid_wide::<f64>);
+    tape!("inverse-rigid-wide-f32", wr, 48, 6_000, 250_000, wide::inverse_rigid_wide::<f32>);
+    let wt = "affine fast inverse (+ in-place) and general inverse on T*R*S with per-axis scales 2^e * mantissa over the whole documented domain (|column|^2 > epsilon): large axis ratios, uniform, two equal axes, next to 1, smallest documented scale, either sign; translation regimes: exact inverse S^-1 R^T [I | -t], two-sided";
+    tape!("inverse-trs-wide-rat", wt, 48, 10_000, 400_000, wide::inverse_trs_wide::<Rat>);
+    tape!("inverse-trs-wide-f64", wt, 48, 10_000, 400_000, wide::inverse_trs_wide::<f64>);
+    tape!("inverse-trs-wide-f32", wt, 48, 10_000, 400_000, wide::inverse_trs_wide::<f32>);
+    let wd = "determinant (both layouts, transposed, layout-converted, of a product) on structured families (triangular, diagonal, permutation, singular, sparse, affine row/column, (anti)symmetric, block, rank-one update, dense) with rows and columns scaled by exact powers of two: equals the exact determinant * 2^(sum of exponents)";
+    tape!("det2-wide-rat", wd, 80, 4_000, 150_000, wide::det2_wide::<Rat>);
+    tape!("det3-wide-rat", wd, 80, 4_000, 150_000, wide::det3_wide::<Rat>);
+    tape!("det4-wide-rat", wd, 80, 4_000, 150_000, wide::det4_wide::<Rat>);
+    tape!("det2-wide-f64", wd, 80, 4_000, 150_000, wide::det2_wide::<f64>);
+    tape!("det3-wide-f64", wd, 80, 4_000, 150_000, wide::det3_wide::<f64>);
+    tape!("det4-wide-f64", wd, 80, 4_000, 150_000, wide::det4_wide::<f64>);
+    tape!("det2-wide-f32", wd, 80, 4_000, 150_000, wide::det2_wide::<f32>);
+    tape!("det3-wide-f32", wd, 80, 4_000, 150_000, wide::det3_wide::<f32>);
+    tape!("det4-wide-f32", wd, 80, 4_000, 150_000, wide::det4_wide::<f32>);
     Property {
         id: "C06",
-        rule: "generated matrices with small rational / float entries (general), rational rotations from integer quaternions times translation (rigid), times per-axis scale of either sign (TRS); singular matrices are discarded and counted; non-trivial = no zero entry in the upper-left 3x3 (whole matrix for determinants), A != A^T, and non-uniform scale for TRS; distinct = distinct consumed tape prefix",
+        rule: "generated matrices with small rational / float entries (general), rational rotations from integer quaternions times translation (rigid), times per-axis scale of either sign (TRS); singular matrices are discarded and counted; non-trivial = no zero entry in the upper-left 3x3 (whole matrix for determinants), A != A^T, and non-uniform scale for TRS; distinct = distinct consumed tape prefix. Regime checks (*-structured, *-wide): an exact rational base matrix of moderate magnitude from a labelled structured family, times an exact power-of-two row/column scaling M' = diag(2^r) M diag(2^c) (all entries; linear part and translation of an affine matrix independently; per-axis scale exponents over the whole documented domain of the affine inverse; per row and column for determinants); vek's result is scaled back exactly and compared with the exact rational inverse / determinant at the base level. Non-trivial there = at most 5 zeros in the upper-left 3x3, A != A^T and (floats) tolerance <= |inverse|/64 (structured); rotation without zero entry and non-uniform scale resp. non-zero translation (TRS / rigid wide); fewer than N*N-N zero entries and A != A^T (determinants)",
         assumptions: &[
             "rustc and the proptest runner/shrinker are trusted",
-            "vkit::refmath: Leibniz determinant and adjugate inverse on plain arrays are the oracles",
+            "vkit::refmath: Leibniz determinant and adjugate inverse on plain arrays are the oracles; in the regime checks they are evaluated in exact rational arithmetic on the unscaled base matrix also for the float domains (the float input equals the rational base exactly where its entries are dyadic, and within 2 roundings per entry for rotation entries a/n)",
             "float domains: matrices with |det| >= 0.5 only, tolerance k*eps*scale with scale derived from the magnitudes of M and inv(M)",
-            "the epsilon substitution branch of the affine inverse (negligibly small scales) is outside the property and is not exercised",
+            "regime checks, floats: multiplying by a power of two is exact, so the comparison is made after scaling the result back to the base level; general inverse: |error| <= 1024 eps (m^3/|det|)(1 + m |inv|) (a-priori bound of a cofactor evaluation with m = max |entry|; the same bound is used for the agreement of inverted() with the fast inverses, where it becomes loose for large m); fast inverses: 256 eps relative to 1/|scale_i| per row (times |t| for the translation column); determinants: 64 eps * sum over permutations of prod |a_i,p(i)| evaluated on the scaled matrix. The entry-wise scaled tolerance assumes an inverse algorithm that commutes with power-of-two row/column scaling (any division-free cofactor/block evaluation, and elimination with pivots chosen inside a column); uniform scaling of all entries needs no such assumption",
+            "exponent ranges are bounded so that every product of four scaled entries, the 24-term sums and the reciprocal of the determinant stay inside the normal range (f32 |k| <= 20, f64 <= 200, Rat <= 16 so that i128 does not overflow); beyond that every correct implementation over/underflows and nothing is asserted. In Rat the general inverse is not called on T*R*S matrices whose exponents sum to more than 56 (i128 range); the fast inverse still is",
+            "affine fast inverse: the documented domain is |column|^2 > T::epsilon() (the epsilon substitution branch); per-axis scales are kept at s^2 >= 1.75 epsilon (|s| >= 2^-11 in f32, 2^-25 in f64 and Rat, whose epsilon is 2^-52) and <= 2^21 (f32) / 2^41 (f64); the substitution branch itself (negligibly small scales) is outside the property and is not exercised",
         ],
         checks,
         max_discard_frac: 0.25,
